@@ -30,8 +30,31 @@ def innermost_ampycloud_frame(tb) -> str:
     return site
 
 
-def run(rows_or_frame, prms=None, msgs=True, keep_warnings=False) -> Run:
+REPLACE_WHOLE = {'height_scale_kwargs', 'MIN_SEP_VALS', 'MIN_SEP_LIMS', 'EXCLUDE_FOR_BASE_HEIGHT_CALC', 'height_scale_range'}
+
+
+def set_global(d, target=None):
+    """Write a nested dict into dynamic.AMPYCLOUD_PRMS the way a user edits it by hand (nested dicts
+    are descended into; the kwargs dict of a scaling mode is replaced as a whole)."""
+    from ampycloud import dynamic
+    target = dynamic.AMPYCLOUD_PRMS if target is None else target
+    for k, v in d.items():
+        if isinstance(v, dict) and k not in REPLACE_WHOLE and isinstance(target.get(k), dict):
+            set_global(v, target[k])
+        else:
+            target[k] = copy.deepcopy(v)
+
+
+def run(rows_or_frame, prms=None, msgs=True, keep_warnings=False, glob=None) -> Run:
+    """glob: nested dict written into the GLOBAL parameters for the duration of this run (restored with
+    reset_prms() afterwards)."""
     import ampycloud
+    if glob:
+        set_global(glob)
+        try:
+            return run(rows_or_frame, prms, msgs, keep_warnings)
+        finally:
+            ampycloud.reset_prms()
     r = Run()
     r.frame = scenes.frame(rows_or_frame) if isinstance(rows_or_frame, list) else rows_or_frame
     r.prms = prms
